@@ -408,7 +408,7 @@ fn process_tier(w: &Work, tier: &str, seed: u64) -> (u64, Vec<ProcFinding>, Vec<
                 }
                 let input = wd.join(&w.sets[si].start);
                 let output = top.join("out.rs");
-                let plan = PlanSpec { root: top.clone(), input: input.clone(), output: output.clone(), dir: wd.clone(), entropy: (entropy, 0x0d), dirperm, dirorder: vec![], faults: vec![], stderr_full: false, rust_log: [None, Some("debug"), Some("trace")][(entropy % 3) as usize] };
+                let plan = PlanSpec { root: top.clone(), input: input.clone(), output: output.clone(), dir: wd.clone(), entropy: (entropy, 0x0d), dirperm, dirorder: vec![], faults: vec![], stderr_full: false, rust_log: [None, Some("debug"), Some("trace")][(entropy % 3) as usize], tmpdir: Some(top.join("tmp")) };
                 let args = vec!["-i".to_string(), input.to_string_lossy().to_string(), "-o".to_string(), output.to_string_lossy().to_string()];
                 let run = cli::run_zeep(&top, &top, &args, &plan, "p");
                 let bytes = std::fs::read(&output).ok();
@@ -511,7 +511,7 @@ fn main() {
                 }
                 let input = wd.join(&w.sets[si].start);
                 let output = top.join("out.rs");
-                let plan = PlanSpec { root: top.clone(), input: input.clone(), output: output.clone(), dir: wd.clone(), entropy: (entropy, 0x0d), dirperm, dirorder: vec![], faults: vec![], stderr_full: false, rust_log: [None, Some("debug"), Some("trace")][(entropy % 3) as usize] };
+                let plan = PlanSpec { root: top.clone(), input: input.clone(), output: output.clone(), dir: wd.clone(), entropy: (entropy, 0x0d), dirperm, dirorder: vec![], faults: vec![], stderr_full: false, rust_log: [None, Some("debug"), Some("trace")][(entropy % 3) as usize], tmpdir: Some(top.join("tmp")) };
                 let a = vec!["-i".to_string(), input.to_string_lossy().to_string(), "-o".to_string(), output.to_string_lossy().to_string()];
                 let r = cli::run_zeep(&top, &top, &a, &plan, "p");
                 (r.exit_code, std::fs::read(&output).ok())
